@@ -118,15 +118,32 @@ func ruleL1(p *Prog) *RuleResult {
 			continue
 		}
 		got := map[string]int{}
-		for _, b := range f.Blocks {
-			for _, ins := range b.Instrs {
-				if c, ok := ins.(*ssa.Call); ok {
-					if callee := c.Call.StaticCallee(); callee != nil && strings.HasPrefix(callee.String(), "(encoding/binary.littleEndian)") {
-						got[callee.Name()]++
+		// the framing reads/writes may sit in a helper of the entry point (one per bucket): follow static
+		// same-package callees two levels deep, each function counted once
+		seenFn := map[*ssa.Function]bool{}
+		var count func(h *ssa.Function, depth int)
+		count = func(h *ssa.Function, depth int) {
+			if seenFn[h] || depth > 2 {
+				return
+			}
+			seenFn[h] = true
+			for _, b := range h.Blocks {
+				for _, ins := range b.Instrs {
+					if c, ok := ins.(*ssa.Call); ok {
+						callee := c.Call.StaticCallee()
+						if callee == nil {
+							continue
+						}
+						if strings.HasPrefix(callee.String(), "(encoding/binary.littleEndian)") {
+							got[callee.Name()]++
+						} else if callee.Blocks != nil && fnPkgPath(callee) == fnPkgPath(f) && callee.Signature.Recv() == nil {
+							count(callee, depth+1)
+						}
 					}
 				}
 			}
 		}
+		count(f, 0)
 		okAll := true
 		for k, n := range fr.want {
 			if got[k] != n {
